@@ -51,6 +51,7 @@ TYPES = {
     'enum': (Color, [Color.R, Color.G, Color.B], [None, Color.B]),
     'npfloat': (numpy.float64, [numpy.float64(1.5), numpy.float64(-0.0), numpy.float64(3.0)], [None, numpy.float64(2.5)]),
     'str': (str, ['', 'a', 'xyz'], [None, 'd']),
+    'settype': (set, [{1}, set(), {1, 2}], [None]),        # declared with the builtin set TYPE (what scan(seed={0}) declares)
 }
 COERCE = {'int': int, 'uint': int, 'float': float, 'bool': bool}
 MAPKEYS = [0, 1, 'a', (1, 2), None, 2.0, 10 ** 20]
